@@ -2,7 +2,7 @@
 from . import vise, core
 PID = 'C06'
 MC = ['C06_TerminateBlocks']
-TR = ['C06_Flags', 'C06_Ctl', 'C06_Blocked']
+TR = ['C06_Flags', 'C06_Ctl', 'C06_Blocked', 'C06_ReqCtl']
 
 
 def run(tier):
